@@ -422,11 +422,18 @@ Definition macro_of_flag (f : flag) : option (str * str) :=
 
 (* ------------------------------------------------------------------ well-formed (documented) options *)
 
+(* the basename either is no library name at all (ValueError) or yields a non-empty name *)
+Definition name_ok (b : str) : bool :=
+  match extract_lib_name b with
+  | Some n => nonempty_text n
+  | None => true
+  end.
+
 Definition wf_libk (k : libk) : bool :=
   match k with
   | LName n => nonempty_text n
-  | LStatic d b => abs_path d && nonempty_text b
-  | LShared d b => abs_path d && nonempty_text b
+  | LStatic d b => abs_path d && nonempty_text b && name_ok b
+  | LShared d b => abs_path d && nonempty_text b && name_ok b
   end.
 
 Definition wf_option (lg : lang) (o : opt) : bool :=
